@@ -9,7 +9,7 @@ import sys
 import time
 
 VERIF = os.path.dirname(os.path.dirname(os.path.abspath(__file__)))
-MODULES = ["contracts.c04_periods", "contracts.engine", "contracts.c03_requests", "contracts.c06_parameters", "contracts.c16_set_input", "contracts.c13_clone", "contracts.c14_reforms", "contracts.c18_engine", "contracts.c17_storage", "contracts.c15_enums", "contracts.c10_groups", "contracts.c07_views", "contracts.c19_dump", "contracts.c08_taxscales", "contracts.c09_transforms"]
+MODULES = ["contracts.c04_periods", "contracts.engine", "contracts.c03_requests", "contracts.c06_parameters", "contracts.c16_set_input", "contracts.c13_clone", "contracts.c14_reforms", "contracts.c18_engine", "contracts.c17_storage", "contracts.c15_enums", "contracts.c10_groups", "contracts.c07_views", "contracts.c19_dump", "contracts.c08_taxscales", "contracts.c09_transforms", "contracts.c12_builder"]
 
 CAL_THEORY = "calendar (OM/DIM opaque, lemma instances; closed forms = Hinnant days-from-civil), validated against datetime"
 
@@ -44,6 +44,17 @@ PROPS = {
         "not_decided": ["to_average / to_marginal are not under contract (float('Inf') thresholds are outside the list model): bounded stand-in on the real code only",
                         "helpers.combine_tax_scales (parameter-node iteration) is not under contract; it only calls add_tax_scale on a scale starting with (0, 0)",
                         "the decimals option of multiply_thresholds"],
+    },
+    "C12": {
+        "theories": ["period keys as an uninterpreted sort with CANON = str o period (idempotent); buffers as maps from keys to arrays"],
+        "lemmas": [],
+        "validations": ["numpy"],
+        "assumptions": [
+            "str(periods.period(key)) is the canonical spelling of a key and printing a parsed period is canonical (CANON idempotent): the C05 round trip, assumed here",
+            "representation invariant of the input buffer: its keys are canonical spellings (add_variable_value is the only writer)",
+            "Variable.check_set_value and Variable.default_array enter as call-site contracts (returns the checked value / raises ValueError; an array of defaults)",
+        ],
+        "not_decided": [],
     },
     "C19": {
         "theories": ["file system as a ghost map path -> array; storage view of C17"],
